@@ -54,21 +54,8 @@ Definition not_owned (S : sets) (s : nat) (ds : list rdef) : bool :=
   forallb (fun t => Nat.eqb (fst t) s ||
                     forallb (fun p => negb (mem_pat p (pats (snd t)))) (pats ds)) S.
 
-(** wildcard names: two expressions of a rule set with the same pattern must use
-    the same key names (tree.go: "wildcard keys differ"); for a pattern ending in
-    a free wildcard only the name of the free wildcard must agree ("free wildcard
-    name doesn't match"; the other names are overwritten, finding C03-F3) *)
-Definition ends_catchall (p : pat) : bool :=
-  match rev p with C :: _ => true | _ => false end.
-
-Definition keys_compat (a b : str) : bool :=
-  match parse_expr a, parse_expr b with
-  | Some (p, ka), Some (q, kb) =>
-    negb (pat_eqb p q) ||
-    (if ends_catchall p then str_eqb (last ka []) (last kb []) else list_eqb str_eqb ka kb)
-  | _, _ => true
-  end.
-
+(** wildcard names: two expressions of a rule set with the same pattern must be
+    compatible ([keys_compat], C06/Pat.v) *)
 Definition keys_ok (ds : list rdef) : bool :=
   let es := exprs ds in forallb (fun a => forallb (keys_compat a) es) es.
 
@@ -228,5 +215,10 @@ Definition guard_F5 (ops : list op) : bool :=
   let es := all_exprs ops in
   existsb (fun a => existsb (keys_clash a) es) es.
 
-Definition no_guard (ops : list op) : bool :=
-  negb (guard_F1 ops || guard_F2 ops || guard_F3 ops || guard_F4 ops || guard_F5 ops || guard_dupid ops).
+(** no guard of a finding that the code still has fires ([fx]: which of the
+    candidate repairs fixes/C06-F3/F4/F5.diff it contains) *)
+Definition no_guard_fx (fx : fixes) (ops : list op) : bool :=
+  negb (guard_F1 ops || guard_F2 ops || (negb (fix_F3 fx) && guard_F3 ops) || (negb (fix_F4 fx) && guard_F4 ops) ||
+        (negb (fix_F5 fx) && guard_F5 ops) || guard_dupid ops).
+
+Definition no_guard (ops : list op) : bool := no_guard_fx no_fix ops.
